@@ -9,6 +9,7 @@ import (
 	"time"
 
 	"github.com/Fantom-foundation/lachesis-base/gossip/itemsfetcher"
+	"github.com/Fantom-foundation/lachesis-base/utils/workers"
 
 	"verifharness/vu"
 )
@@ -331,7 +332,129 @@ func c16RunOnce(hashLimit int, mb int, ops []c16Op, c16Unit time.Duration) (obs 
 	return obs, late
 }
 
+// Worker-pool cases (utils/workers, the pool the fetcher hands its request closures to):
+// input : W nWorkers cap ; E id ; ... ; Q (close quit) ; D (Drain) ; S (wg.Wait) ; E id ...
+// obs   : e<id>:<Enqueue returned nil>:<called after close(quit)>:<times the closure ran> per E op, then
+//         late<0|1> = a closure ran after wg.Wait() had returned.
+func c16wRun(in []string) []string {
+	nw, _ := strconv.Atoi(in[1])
+	capQ, _ := strconv.Atoi(in[2])
+	wg := &sync.WaitGroup{}
+	quit := make(chan struct{})
+	w := workers.New(wg, quit, capQ)
+	w.Start(nw)
+	var mu sync.Mutex
+	counts := map[int]int{}
+	stopped, late, closed, waited := false, false, false, false
+	type enq struct {
+		id     int
+		ok     bool
+		afterq bool
+	}
+	var enqs []enq
+	for i := 3; i < len(in); i++ {
+		switch in[i] {
+		case "E":
+			id, _ := strconv.Atoi(in[i+1])
+			i++
+			err := w.Enqueue(func() {
+				mu.Lock()
+				counts[id]++
+				if stopped {
+					late = true
+				}
+				mu.Unlock()
+				time.Sleep(100 * time.Microsecond)
+			})
+			enqs = append(enqs, enq{id, err == nil, closed})
+		case "Q":
+			if !closed {
+				close(quit)
+				closed = true
+			}
+		case "D":
+			w.Drain()
+		case "S":
+			if closed && !waited {
+				wg.Wait()
+				waited = true
+				mu.Lock()
+				stopped = true
+				mu.Unlock()
+			}
+		case "Y": // give the workers time
+			time.Sleep(2 * time.Millisecond)
+		}
+	}
+	if !closed {
+		close(quit)
+	}
+	w.Drain()
+	if !waited {
+		wg.Wait()
+		mu.Lock()
+		stopped = true
+		mu.Unlock()
+	}
+	time.Sleep(3 * time.Millisecond)
+	mu.Lock()
+	defer mu.Unlock()
+	var obs []string
+	for _, e := range enqs {
+		obs = append(obs, fmt.Sprintf("e%d:%s:%s:%d", e.id, vu.B(e.ok), vu.B(e.afterq), counts[e.id]))
+		if e.afterq && e.ok {
+			vu.Stat("w_enqueue_after_quit_accepted")
+		}
+		if e.afterq && !e.ok {
+			vu.Stat("w_enqueue_after_quit_refused")
+		}
+	}
+	obs = append(obs, "late"+vu.B(late))
+	return obs
+}
+
+func c16wGen(r *rand.Rand, emit func(...string)) {
+	nw := 1 + r.Intn(3)
+	n := 3 + r.Intn(8)
+	capQ := n + 2
+	if r.Intn(3) == 0 {
+		capQ = 2 + r.Intn(3) // small buffer: Enqueue after quit hits a full queue
+	}
+	toks := []string{"W", strconv.Itoa(nw), strconv.Itoa(capQ)}
+	id := 0
+	before := r.Intn(n)
+	if before > capQ {
+		before = capQ
+	}
+	for k := 0; k < before; k++ {
+		id++
+		toks = append(toks, ";", "E", strconv.Itoa(id))
+		if r.Intn(4) == 0 {
+			toks = append(toks, ";", "Y")
+		}
+	}
+	toks = append(toks, ";", "Q")
+	order := r.Intn(3)
+	if order == 0 {
+		toks = append(toks, ";", "D", ";", "S")
+	} else if order == 1 {
+		toks = append(toks, ";", "D")
+	}
+	for k := before; k < n; k++ {
+		id++
+		toks = append(toks, ";", "E", strconv.Itoa(id))
+	}
+	if order == 1 {
+		toks = append(toks, ";", "S")
+	}
+	vu.Stat("family_workers")
+	emit(toks...)
+}
+
 func c16RunCase(in []string) []string {
+	if len(in) > 0 && in[0] == "W" {
+		return c16wRun(in)
+	}
 	hl, mb, ops := c16Parse(in)
 	var obs []string
 	var late bool
@@ -355,6 +478,10 @@ func c16Gen(r *rand.Rand, n int, tier string, emit func(...string)) {
 	emit("256", ";", "S", "1", "1", ";", "N", "2", "1", "0", "1", ";", "S", "3", "0", ";", "E", "30")
 	emit("256", ";", "S", "1", "1", ";", "N", "2", "1", "0", "1,2", ";", "S", "4", "0", ";", "N", "30", "2", "0", "3", ";", "E", "44")
 	for c := 2; c < n; c++ {
+		if c%5 == 4 {
+			c16wGen(r, emit)
+			continue
+		}
 		hl := 256
 		small := r.Intn(5) == 0
 		if small {
